@@ -113,7 +113,7 @@ def cases(ctx):
         yield ('src', '1 / 3 * 3')
         for a in SPECIAL:
             yield ('src', a)
-    for _ in range(ctx.scale(5000, 150000)):
+    for _ in range(ctx.scale(12000, 200000)):
         r = random.Random(rnd.getrandbits(48))
         if r.random() < 0.12:
             yield ('src', literal(r))
